@@ -19,6 +19,20 @@ Apply(S, o) ==    \* S: <<set1, set2, set3>>
     [] o.op = "union" -> [S EXCEPT ![o.r] = S[o.a] \cup S[o.b]]
     [] o.op = "compl" -> [S EXCEPT ![o.r] = (0..o.lim) \ S[o.a]]
 
+\* histories over atoms (GenSet!Wide): a register is a set of atom indices; atom k stands for the integers from
+\* h.atoms[k + 1] up to the element before the next atom (the last one ends at h.top)
+IsWide(h) == "atoms" \in DOMAIN h
+\* TLC's integers are 32 bits wide and the whole range has 2^31 members, so sizes are pairs <<q, r>> = q * 65536 + r
+AtomLast(h, k) == IF k < h.u THEN h.atoms[k + 2] - 1 ELSE h.top
+AtomSize(h, k) == LET d == AtomLast(h, k) - h.atoms[k + 1] IN <<d \div 65536, (d % 65536) + 1>>     \* r may be 65536: normalised by Norm
+Norm(p) == <<p[1] + (p[2] \div 65536), p[2] % 65536>>
+RECURSIVE SumSizes(_, _)
+SumSizes(h, S) == IF S = {} THEN <<0, 0>>
+                  ELSE LET k == CHOOSE k \in S : TRUE a == AtomSize(h, k) b == SumSizes(h, S \ {k}) IN Norm(<<a[1] + b[1], a[2] + b[2]>>)
+Card(h, S) == IF IsWide(h) THEN SumSizes(h, S) ELSE Cardinality(S)
+LenOf(h, ro) == IF IsWide(h) THEN ro.lenqr ELSE ro.len
+\* membership probes: every integer 0..u+1, or the first and the last element of every atom
+HasWant(h, S) == IF IsWide(h) THEN [x \in 1..(2 * (h.u + 1)) |-> ((x - 1) \div 2) \in S] ELSE [x \in 1..(h.u + 2) |-> (x - 1) \in S]
 SortedSeq(S) == SortSeq(SetToSeq(S), <)
 TF(b) == IF b THEN "t" ELSE "f"
 If(c, x) == IF c THEN <<x>> ELSE <<>>
@@ -31,9 +45,9 @@ RegMis(h, k, S, st, i) ==
   If(ro.panic # "", Mis(h, k, "observer-panic", i, "", ro.panic)) \o
   If(ro.strpanic # "", Mis(h, k, "string-panic", i, SortedSeq(S[i]), ro.strpanic)) \o
   (IF ro.panic # "" THEN <<>> ELSE
-     If(ro.len # Cardinality(S[i]), Mis(h, k, "len", i, Cardinality(S[i]), ro.len)) \o
-     If(ro.has # [x \in 1..(h.u + 2) |-> (x - 1) \in S[i]], Mis(h, k, "has", i, [x \in 1..(h.u + 2) |-> (x - 1) \in S[i]], ro.has))) \o
-  (IF ro.strpanic # "" THEN <<>> ELSE
+     If(LenOf(h, ro) # Card(h, S[i]), Mis(h, k, "len", i, Card(h, S[i]), LenOf(h, ro))) \o
+     If(ro.has # HasWant(h, S[i]), Mis(h, k, "has", i, HasWant(h, S[i]), ro.has))) \o
+  (IF ro.strpanic # "" \/ IsWide(h) THEN <<>> ELSE     \* (the element list of a wide set is not asked for)
      If(~ro.strok \/ ro.str # SortedSeq(S[i]), Mis(h, k, "string", i, SortedSeq(S[i]), ro.str)))
 
 RECURSIVE PairMis(_, _, _, _, _)
